@@ -75,11 +75,38 @@ func (ex *Exec) call(s *State, fr *Frame, instr ssa.Instruction, c *ssa.CallComm
 		return
 	}
 	if cl.Fn == nil {
+		if cl.Stub == "swap" {
+			// element swap of the slice bound by the sort.Slice intrinsic
+			if !ex.swapElems(s, cl.Bindings[0].(Slice), args[0].(*Term), args[1].(*Term), pend) {
+				return
+			}
+			ex.finishCall(s, fr, dst, nil)
+			return
+		}
 		// opaque function value: results are zero values
 		ex.finishCall(s, fr, dst, ex.zeroResults(c.Signature()))
 		return
 	}
 	ex.invoke(s, fr, cl.Fn, args, cl.Bindings, dst, pend, c)
+}
+
+// swapElems swaps x[i] and x[j] (indexes concretized).
+func (ex *Exec) swapElems(s *State, x Slice, iT, jT *Term, pend *pending) bool {
+	n := ex.sliceBound(s, x)
+	i, ok := ex.concretize(s, iT, n, pend)
+	if !ok {
+		return false
+	}
+	j, ok := ex.concretize(s, jT, n, pend)
+	if !ok {
+		return false
+	}
+	pi := Ptr{Obj: x.Base.Obj, Path: extendPath(x.Base.Path, ex.elemPath(x.Off, ex.tt.BV(uint64(i), 64)))}
+	pj := Ptr{Obj: x.Base.Obj, Path: extendPath(x.Base.Path, ex.elemPath(x.Off, ex.tt.BV(uint64(j), 64)))}
+	vi, vj := ex.load(s, pi), ex.load(s, pj)
+	ex.store(s, pi, vj)
+	ex.store(s, pj, vi)
+	return true
 }
 
 func (ex *Exec) zeroResults(sig *types.Signature) Value {
